@@ -224,6 +224,35 @@ class Bed12(Bed6):
         return r
 
 
+class Csv4(Format):
+    """a user-defined delimited table with a header line and a delimiter that is not the tab (get_bufferclass_for_datatype)"""
+    name = "csv4"
+    suffix = ".csv"
+    buffer = "@delimited:,"
+    delimiter = ","
+    fields = ("chromosome", "start", "stop", "score")
+
+    def header(self, rng, style):
+        return self.delimiter.join(self.fields) + "\n"
+
+    def gen_record(self, rng, prof, style, i):
+        c = "chr" + ident(rng, prof, string.digits + "XYM_", string.digits + "XYM")
+        a, b = _interval(rng, prof)
+        sc = rng.randint(0, 1000)
+        nc = style.get("noncanon")
+        return {"values": {"chromosome": c, "start": a, "stop": b, "score": sc}, "texts": [c, spell_int(a, rng, nc), spell_int(b, rng, nc), spell_int(sc, rng, nc)]}
+
+    def render(self, rec, eol):
+        return self.delimiter.join(rec["texts"]) + eol
+
+
+class Ssv4(Csv4):
+    name = "ssv4"
+    suffix = ".ssv"
+    buffer = "@delimited:;"
+    delimiter = ";"
+
+
 class BedGraph(Bed3):
     name = "bdg"
     suffix = ".bdg"
@@ -483,7 +512,7 @@ class Sam(Format):
 
 
 FORMATS = {f.name: f for f in [Fasta2(), FastaWrapped(), Fastq(), Bed3(), Bed6(), Bed12(), BedGraph(), NarrowPeak(), ChromSizes(), Gfa(), Pairs(), Gtf(), Gff3(), Wig(),
-                               Vcf(), VcfNoInfoHeader(), VcfGenotypes(), VcfPhased(), Sam()]}
+                               Vcf(), VcfNoInfoHeader(), VcfGenotypes(), VcfPhased(), Sam(), Csv4(), Ssv4()]}
 
 
 def make_file(fmt, rng, n, prof="normal", style=None):
